@@ -18,7 +18,8 @@ MANIFEST = {
             'z*P*phi/(Psat*pcf) for the dew point, and the inner solves divide by phi(y) resp. gamma(x); every coefficient call in the summand and the inner solve '
             'receive, at the positions their class signatures give to T and P, the temperature at which the saturation pressures are evaluated and the pressure of '
             'the summand. The fallback brackets are [Tmin, Tmax] from the domain call in order and [min Psat(Tmin), max Psat(Tmax)], identically in BubblePoint and'
-            ' DewPoint. Residual magnitudes, T-P inversion, bubble <= dew and permutation invariance are numerical and not decided.',
+            ' DewPoint; where the residuals handed to the bracketing solver are visible calls of the residual function, each is evaluated at its own end of the '
+            'bracket. Residual magnitudes, T-P inversion, bubble <= dew and permutation invariance are numerical and not decided.',
 }
 
 BP = 'thermosteam/equilibrium/bubble_point.py'
